@@ -31,7 +31,7 @@ def shards(tier):
             acc, w = [], 0
     if acc:
         out.append(dict(part="sym", geos=acc))
-    out.append(dict(part="concrete"))
+    out.append(dict(part="concrete", concrete=True))
     return out
 
 
